@@ -1,6 +1,6 @@
 import SimuVerif.Lemmas.C12_Centred
 import SimuVerif.Lemmas.C12_OrientClosed
-import SimuVerif.Lemmas.C12_Axis
+import SimuVerif.Lemmas.C12_Spectral
 /-
   C12 — volume, area, centroid, bounding box and normals are exact and frame-independent.
 
@@ -734,6 +734,46 @@ theorem longest_axis_follows (M N : V3 R → V3 R) (hM : LinIso M) (hN : LinIso 
   exact longest_axis_follows_partial M N hM hN hMN hNM d c ps (colOf cols i) (colOf cols' i') (comp E i) (comp E' i')
     (h.eig i hi) (h.unit i hi) (h'.eig i' hi') (h'.unit i' hi') hmax hmax' huniq
 
+/-- The usual contract of a symmetric eigen-solver, and all that is still assumed about `gte::SymmetricEigensolver3x3`:
+    the three columns are orthonormal and each is an eigenvector for the eigenvalue of the same index. -/
+structure EigSolverSpec (C : V3 R → V3 R) (E : V3 R) (cols : V3 R × V3 R × V3 R) : Prop where
+  eig : ∀ k, k < 3 → C (colOf cols k) = colOf cols k * comp E k
+  ortho : Orthonormal3 cols.1 cols.2.1 cols.2.2
+
+/-- "no eigenvalue is missing" (`EigOut.complete`) is not an assumption about the solver: three orthonormal eigenvectors of
+    the symmetric matrix of `covRows` carry its whole spectrum (an orthonormal triple spans the space: dual-basis expansion
+    and Gram determinant) -/
+theorem eigOut_of_orthonormal (c : V3 R) (ps : List (V3 R)) (E : V3 R) (cols : V3 R × V3 R × V3 R)
+    (h : EigSolverSpec (covApply (covRows (covOf c ps))) E cols) :
+    EigOut (covApply (covRows (covOf c ps))) E cols := by
+  refine ⟨h.eig, fun k hk => ?_, fun w m hw hwm => ?_⟩
+  · obtain rfl | rfl | rfl : k = 0 ∨ k = 1 ∨ k = 2 := by omega
+    · exact h.ortho.aa
+    · exact h.ortho.bb
+    · exact h.ortho.cc
+  · have e0 := h.eig 0 (by omega); have e1 := h.eig 1 (by omega); have e2 := h.eig 2 (by omega)
+    simp only [colOf, comp] at e0 e1 e2
+    norm_num at e0 e1 e2
+    rcases spectrum_complete (covOf c ps) cols.1 cols.2.1 cols.2.2 E.x E.y E.z h.ortho e0 e1 e2 w m hw hwm with r | r | r
+    · exact ⟨0, by omega, by simpa [comp] using r⟩
+    · exact ⟨1, by omega, by simpa [comp] using r⟩
+    · exact ⟨2, by omega, by simpa [comp] using r⟩
+
+/-- the longest axis follows the cell, assuming of the solver only `EigSolverSpec` (orthonormal eigenvectors) -/
+theorem longest_axis_follows_orthonormal (M N : V3 R → V3 R) (hM : LinIso M) (hN : LinIso N)
+    (hMN : ∀ x, M (N x) = x) (hNM : ∀ x, N (M x) = x) (d c : V3 R) (ps : List (V3 R))
+    (E E' : V3 R) (cols cols' : V3 R × V3 R × V3 R)
+    (h : EigSolverSpec (covApply (covRows (covOf c ps))) E cols)
+    (h' : EigSolverSpec (covApply (covRows (covOf (M c + d) (ps.map (fun p => M p + d))))) E' cols')
+    (i i' : Nat) (hi : i < 3) (hi' : i' < 3)
+    (hstrict : ∀ j, j < 3 → j ≠ i → comp E j < comp E i)
+    (hstrict' : ∀ j, j < 3 → j ≠ i' → comp E' j < comp E' i')
+    (huniq : ∀ w, covApply (covRows (covOf c ps)) w = w * comp E i → ∃ k : R, w = colOf cols i * k) :
+    colOf cols' (axisColumn E') = M (colOf cols (axisColumn E)) ∨
+      colOf cols' (axisColumn E') = -(M (colOf cols (axisColumn E))) :=
+  longest_axis_follows M N hM hN hMN hNM d c ps E E' cols cols' (eigOut_of_orthonormal c ps E cols h)
+    (eigOut_of_orthonormal _ _ E' cols' h') i i' hi hi' hstrict hstrict' huniq
+
 /-! ## every rotation / reflection matrix is covered -/
 
 /-- a matrix whose first two columns are orthonormal and whose third column is their cross product
@@ -854,6 +894,8 @@ example : (∀ j, j < 3 → j ≠ 2 → comp (⟨1/3, 4/3, 3⟩ : V3 ℚ) j < co
     have hy : w.y * (4/3) = w.y * 3 := by simpa [comp] using congrArg V3.y hw
     refine ⟨w.z, ?_⟩
     apply V3.ext' <;> norm_num [colOf] <;> linarith
+example : Orthonormal3 (⟨1,0,0⟩ : V3 ℚ) ⟨0,1,0⟩ ⟨0,0,1⟩ := by constructor <;> norm_num [V3.dot_def]
+example : Orthonormal3 (⟨3/5,4/5,0⟩ : V3 ℚ) ⟨-(4/5),3/5,0⟩ ⟨0,0,1⟩ := by constructor <;> norm_num [V3.dot_def]
 end nonvacuous
 
 end Simu.C12
